@@ -302,15 +302,20 @@ RuleInfo ==
   Part = 0 =>
     /\ \A d \in ClassDefs :
          PrintT(<<"CLASSRULE", ToJson([d |-> d, broken |-> SetSeq(ClassRuleBroken(d)),
-                                       associated |-> ClassAssociated(d)])>>)
+                                       associated |-> ClassAssociated(d),
+                                       after |-> ClassAfter(d)])>>)
     /\ \A r \in InstanceRules : PrintT(<<"INSTRULE", ToJson(r)>>)
 ASSUME RuleInfo
 \* sanity of the table itself: a plain associated definition and plain inheritance are accepted
 ASSUME \A k \in {"args", "data"} :
-  /\ ClassRuleBroken([kind |-> k, nbases |-> 1, inherits |-> FALSE, defines |-> TRUE,
+  /\ ClassRuleBroken([kind |-> k, nbases |-> 1, depth |-> 0, defines |-> TRUE,
                       defaults |-> TRUE, assoc |-> TRUE, taken |-> FALSE]) = {}
-  /\ ClassRuleBroken([kind |-> k, nbases |-> 1, inherits |-> TRUE, defines |-> FALSE,
-                      defaults |-> TRUE, assoc |-> FALSE, taken |-> FALSE]) = {}
-  /\ ClassRuleBroken([kind |-> k, nbases |-> 1, inherits |-> FALSE, defines |-> FALSE,
+  /\ \A n \in 1..3 :
+       /\ ClassRuleBroken([kind |-> k, nbases |-> 1, depth |-> n, defines |-> FALSE,
+                           defaults |-> TRUE, assoc |-> FALSE, taken |-> FALSE]) = {}
+       \* re-association is rejected at every depth below an associated namespace class
+       /\ ClassRuleBroken([kind |-> k, nbases |-> 1, depth |-> n, defines |-> FALSE,
+                           defaults |-> TRUE, assoc |-> TRUE, taken |-> FALSE]) # {}
+  /\ ClassRuleBroken([kind |-> k, nbases |-> 1, depth |-> 0, defines |-> FALSE,
                       defaults |-> TRUE, assoc |-> FALSE, taken |-> FALSE]) = {}
 =============================================================================
